@@ -74,7 +74,11 @@ Definition lines_efi_nth (p : profile) (m : mem) (i : efi_iter) : list string :=
                   | Val (None, it') => "VAL none len=" ++ sRes sN (efi_len p it')
                   | r => sRes (fun _ => "") r
                   end)) (nth_ks (ei_entries i))
-   ++ [line "efi_count" (let '(l, e) := efi_collect (S (S (N.to_nat (ei_entries i)))) p m i in sRes (fun _ => sN (len l)) e)])%list.
+   ++ [line "efi_count" (let '(l, e) := efi_collect (S (S (N.to_nat (ei_entries i)))) p m i in sRes (fun _ => sN (len l)) e)]
+   (* the Debug text of the iterator lists the descriptors still to come (fresh, and after one next()): their phys_start values *)
+   ++ [line "efi_dbg" (let '(l, e) := efi_collect (S (S (N.to_nat (ei_entries i)))) p m i in
+                       let phys o := le (slice (m_bytes m) (o + 8) 8) in
+                       sRes (fun _ => (sList sN (map phys l) ++ " after1=" ++ sList sN (map phys (tl l)))%string) e)])%list.
 
 Definition lines_efi (p : profile) (m : mem) (t : tref) : list string :=
   let it := efi_memory_areas m t in
@@ -112,7 +116,12 @@ Definition lines_elf_nth (p : profile) (m : mem) (i : elf_iter) : list string :=
                     | Val (None, it') => "VAL none rem=" ++ sN (el_rem it')
                     | r => sRes (fun _ => "") r
                     end)) (nth_ks (el_rem i))
-     ++ [line "elf_count" (let '(l, e) := elf_collect (S (elf_fuel i)) p m i in sRes (fun _ => sN (len l)) e)])%list
+     ++ [line "elf_count" (let '(l, e) := elf_collect (S (elf_fuel i)) p m i in sRes (fun _ => sN (len l)) e)]
+     (* the Debug text of the iterator: the first 7 sections to come (their addr fields), then "..." iff more than 7 entries remain *)
+     ++ [line "elf_dbg" (let '(l, e) := elf_collect (S (elf_fuel i)) p m i in
+                         let shown := firstn 7 l in
+                         let txt := (sList (fun s => sRes sN (elf_addr m s)) shown ++ " more=" ++ sBool (N.ltb 7 (el_rem i)))%string in
+                         if N.leb 7 (len l) then ("VAL " ++ txt)%string else sRes (fun _ => txt) e)])%list
   else [].
 
 Definition lines_elf (p : profile) (m : mem) (t : tref) : list string :=
